@@ -6,6 +6,11 @@ import os
 import sys
 
 
+def _rt(spec, tier):
+    rt = spec["run_timeout"]
+    return rt[tier] if isinstance(rt, dict) else rt
+
+
 def main(argv=None):
     argv = sys.argv[1:] if argv is None else argv
     if argv and argv[0] == "selftest":
@@ -41,7 +46,7 @@ def main(argv=None):
     budget = args.budget or float(os.environ.get("VERIF_BUDGET_S", "0") or 0) or spec["budget_s"][tier]
     code, _ = engine.run_check(
         prop, spec["machine"], tier, seed, runs, spec["chunk"][tier], budget,
-        spec["run_timeout"], spec["extra"], workers=args.workers,
+        _rt(spec, tier), spec["extra"], workers=args.workers,
         write_evidence=not args.no_evidence,
     )
     return code
